@@ -29,7 +29,10 @@ static std::vector<Base> bases() {
 static std::vector<std::pair<std::string, Val>> offences() {
 	using V = Val;
 	return {{"nil", V::nil()}, {"bool", V::boolean(true)}, {"int", V::integer(7)}, {"bigint", V::integer(1ll << 40)}, {"negint", V::integer(-5)}, {"float", V::dbl(2.5)}, {"str", V::str("off")},
-		{"arr", V::arr({V::integer(1), V::integer(2)})}, {"map", V::map({{V::str("x"), V::integer(1)}})}, {"bin", V::bin("\x07")}};
+		{"arr", V::arr({V::integer(1), V::integer(2)})}, {"map", V::map({{V::str("x"), V::integer(1)}})}, {"bin", V::bin("\x07")},
+		// MsgPack only: values of the length-prefixed ext family (timestamp 96 = ext8) and of the fixext family (timestamp 64), long str/array forms
+		{"ts96", V::ts(-1, 500000000)}, {"ts64", V::ts(1, 5)}, {"ext8", []{ Val v; v.k = Val::Ext; v.ext_type = 5; v.s = "abc"; return v; }()}, {"str8", V::str(std::string(40, 's'))},
+		{"arr16", []{ Val a = Val::arr(); for (int i = 0; i < 17; ++i) a.a.push_back(Val::integer(i)); return a; }()}};
 }
 static void collect(Val& v, std::vector<Val*>& out, bool root = true) { if (!root) out.push_back(&v); for (auto& e : v.a) collect(e, out, false); for (auto& e : v.m) collect(e.second, out, false); }
 static size_t subtree(const Val& v) { size_t n = 1; for (auto& e : v.a) n += subtree(e); for (auto& e : v.m) n += subtree(e.second); return n; }
@@ -57,7 +60,7 @@ static void typedScenario(bsx::Ctx& c) {
 		if (!k) continue;
 		const auto& of = offs[static_cast<size_t>(k - 1)];
 		if (of.second.k == orig[i].k && !(of.first == "bigint")) continue;
-		if (arch != tl::MsgPack && of.second.k == Val::Bin) continue;
+		if (arch != tl::MsgPack && (of.second.k == Val::Bin || of.second.k == Val::Ts || of.second.k == Val::Ext)) continue;
 		if (arch == tl::Xml && (of.second.k == Val::Nil || ((of.second.k == Val::Arr || of.second.k == Val::Map) && (orig[i].k == Val::Arr || orig[i].k == Val::Map)))) continue;
 		if (of.first == "bool" && orig[i].k == Val::Int) continue;   // bool is accepted as 0/1 by integer targets (cross-family, not an offence)
 		size_t skip = subtree(orig[i]) - 1;   // descendants disappear with a replaced container
@@ -124,7 +127,7 @@ static void body(bsx::Ctx& c) {
 		if (!k) continue;
 		const auto& of = offs[static_cast<size_t>(k - 1)];
 		if (of.second.k == orig[i].k && of.first != "bigint" && of.first != "negint") continue;
-		if (arch != tl::MsgPack && of.second.k == Val::Bin) continue;
+		if (arch != tl::MsgPack && (of.second.k == Val::Bin || of.second.k == Val::Ts || of.second.k == Val::Ext)) continue;
 		if ((arch == tl::Xml || arch == tl::Csv) && of.second.k == Val::Nil) continue;
 		if (arch == tl::Csv && (of.second.k == Val::Arr || of.second.k == Val::Map)) continue;
 		if (arch == tl::Xml && (of.second.k == Val::Arr || of.second.k == Val::Map) && (orig[i].k == Val::Arr || orig[i].k == Val::Map)) continue;
